@@ -130,5 +130,7 @@ def run(tier):
     for j, h in enumerate(hs[:15 if quick else 100]):
         conc = concretise.Concretiser(seed * 1000 + j)
         check_behaviour(ck, conc, lambda t: mappyfile.loads(t, expand_includes=False), h, "public-loads", per_step=False)
+    from .. import quoting
+    quoting.run(ck, "C02", tier, impl.loader(expand_includes=True), impl.dumper)
     return ck.finish(exhaustive=False, coverage_extra={
         "slot_probes": len(sl), "walks_per_step": len(hs), "walks_long": len(hl)})
